@@ -33,8 +33,28 @@ def quiet():
     sys.unraisablehook = lambda *a: None
 
 
+PREIMPORT = [
+    "chmpy", "chmpy.crystal", "chmpy.core.dimer", "chmpy.ext.charges", "chmpy.ext.vasp", "chmpy.fmt.shelx",
+    "chmpy.fmt.vasp", "chmpy.fmt.cif", "chmpy.shape", "chmpy.crystal.sfac", "scipy.sparse.csgraph",
+    "scipy.spatial.distance", "sim.gen", "sim.minimise",
+]  # fmt: skip
+
+
+def preimport():
+    """Import (not run) everything a history may import lazily, so that forked
+    children do not pay for it and all start from the same module state."""
+    import importlib
+
+    for name in PREIMPORT:
+        try:
+            importlib.import_module(name)
+        except Exception:  # noqa: BLE001 - optional module missing in a mutated tree
+            pass
+
+
 def _worker_init():
     quiet()
+    preimport()
     faulthandler.enable()
     # compiled chmpy kernels print "ZeroDivisionError: float division" through
     # PyErr_Print for atoms far from any density; tracebacks of harness errors
@@ -61,60 +81,82 @@ def run_one(stratum, seed, index):
     raise ValueError(stratum)
 
 
-def run_chunk(task):
+def run_summary(stratum, seed, index, want_fp):
+    """Executed in a forked child: one simulated history and its summary."""
     from .engine import schedule_key
+    from .simfs import FS
+
+    r = run_one(stratum, seed, index)
+    out = {"status": r.status, "stats": Counter(), "fs": dict(FS.counts), "steps": 0, "transitions": [],
+           "source": None, "length": 0, "faulted": False, "nontrivial": None, "fp": None, "sample": None,
+           "violation": None, "ref": r.schedule.get("ref", "inproc")}  # fmt: skip
+    if r.sim is None:
+        out["stats"]["source_failed:" + (r.error or "")[:50]] += 1
+        return out
+    sim = r.sim
+    out["steps"] = sim.n_steps
+    out["stats"] = sim.stats
+    out["transitions"] = sorted(sim.transitions)
+    out["source"] = sim.src_class
+    body = [s for s in r.schedule["steps"] if not s.get("audit")]
+    out["length"] = min(len(body), 41)
+    out["faulted"] = any(
+        s["op"] == "wfail" or "inject" in s or s["op"] in ("toX", "bad_save", "bad_group", "bad_load") for s in body
+    )
+    if sim.nontrivial_checks > 0:
+        out["nontrivial"] = schedule_key(r.schedule)
+    if want_fp:
+        out["fp"] = sim.fingerprint()
+    if sim.nontrivial_checks > 0 and len(body) <= 8:
+        out["sample"] = {
+            "stratum": stratum, "index": index, "source": sim.src_class, "reference": out["ref"],
+            "ops": ["h%d.%s" % (s["h"], _op_label(s)) for s in body],
+            "audit_queries": len(r.schedule["steps"]) - len(body),
+            "checked_after_state_change": sim.nontrivial_checks,
+        }  # fmt: skip
+    if r.violation is not None:
+        out["violation"] = {"stratum": stratum, "index": index, "schedule": r.schedule,
+                            "violation": r.violation.to_json()}  # fmt: skip
+    return out
+
+
+def run_chunk(task):
+    """Runs in a pool worker that never executes library code itself: every
+    history is executed in a child forked from this pristine process."""
+    from .isolate import ChildFailure, forked
 
     stratum, seed, indices, want_fp = task
     out = {
         "stratum": stratum, "runs": 0, "steps": 0, "status": Counter(), "stats": Counter(),
         "violations": [], "harness": [], "fps": {}, "nontrivial": [], "transitions": set(),
         "samples": [], "lengths": Counter(), "faulted_runs": 0, "sources": Counter(),
-        "fs": Counter(),
+        "fs": Counter(), "isolated_ref_runs": 0,
     }  # fmt: skip
-    from .simfs import FS
-
     for index in indices:
-        faulthandler.dump_traceback_later(RUN_TIMEOUT, exit=True)
         try:
-            fs0 = dict(FS.counts)
-            r = run_one(stratum, seed, index)
-        except Exception:  # noqa: BLE001 - anything here is the simulator's fault
-            out["harness"].append([stratum, index, traceback.format_exc()])
+            r = forked(run_summary, stratum, seed, index, want_fp, timeout=RUN_TIMEOUT)
+        except ChildFailure as e:
+            out["harness"].append([stratum, index, str(e)])
             continue
-        finally:
-            faulthandler.cancel_dump_traceback_later()
         out["runs"] += 1
-        out["status"][r.status] += 1
-        for k, v in FS.counts.items():
-            out["fs"][k] += v - fs0.get(k, 0)
-        if r.sim is None:
-            out["stats"]["source_failed:" + (r.error or "")[:50]] += 1
-            continue
-        sim = r.sim
-        out["steps"] += sim.n_steps
-        out["stats"].update(sim.stats)
-        out["transitions"].update(sim.transitions)
-        out["sources"][sim.src_class] += 1
-        body = [s for s in r.schedule["steps"] if not s.get("audit")]
-        out["lengths"][min(len(body), 41)] += 1
-        if any(s["op"] in ("wfail",) or "inject" in s or s["op"] in ("toX", "bad_save", "bad_group", "bad_load") for s in body):
-            out["faulted_runs"] += 1
-        if sim.nontrivial_checks > 0:
-            out["nontrivial"].append(schedule_key(r.schedule))
-        if want_fp:
-            out["fps"]["%s:%d" % (stratum, index)] = sim.fingerprint()
-        if len(out["samples"]) < 2 and sim.nontrivial_checks > 0 and len(body) <= 8:
-            out["samples"].append(
-                {"stratum": stratum, "index": index, "source": sim.src_class,
-                 "ops": ["h%d.%s" % (s["h"], _op_label(s)) for s in body],
-                 "audit_queries": len(r.schedule["steps"]) - len(body),
-                 "checked_after_state_change": sim.nontrivial_checks}
-            )  # fmt: skip
-        if r.violation is not None:
-            out["violations"].append(
-                {"stratum": stratum, "index": index, "schedule": r.schedule,
-                 "violation": r.violation.to_json()}
-            )  # fmt: skip
+        out["status"][r["status"]] += 1
+        out["fs"].update(r["fs"])
+        out["stats"].update(r["stats"])
+        out["steps"] += r["steps"]
+        out["transitions"].update(tuple(t) for t in r["transitions"])
+        if r["source"]:
+            out["sources"][r["source"]] += 1
+            out["lengths"][r["length"]] += 1
+        out["faulted_runs"] += 1 if r["faulted"] else 0
+        out["isolated_ref_runs"] += 1 if r["ref"] == "isolated" else 0
+        if r["nontrivial"]:
+            out["nontrivial"].append(r["nontrivial"])
+        if r["fp"]:
+            out["fps"]["%s:%d" % (stratum, index)] = r["fp"]
+        if r["sample"] and len(out["samples"]) < 2:
+            out["samples"].append(r["sample"])
+        if r["violation"]:
+            out["violations"].append(r["violation"])
     return out
 
 
@@ -145,8 +187,10 @@ class Batch:
         self.sources = Counter()
         self.fs = Counter()
         self.per_stratum = Counter()
+        self.isolated_ref_runs = 0
 
     def add(self, o):
+        self.isolated_ref_runs += o.get("isolated_ref_runs", 0)
         self.runs += o["runs"]
         self.steps += o["steps"]
         self.status.update(o["status"])
@@ -248,11 +292,10 @@ def known_match(sig, known):
 
 
 def minimise_task(item):
-    from .engine import Violation
+    from .engine import violation_from_json
     from .minimise import minimise
 
-    vj = item["violation"]
-    v = Violation(vj["class"], vj["step"], vj["op"], vj["handle"], vj["detail"])
+    v = violation_from_json(item["violation"])
     schedule, v2, sig, n0 = minimise(item["schedule"], v)
     return {"stratum": item["stratum"], "index": item["index"], "schedule": schedule,
             "violation": v2.to_json(), "signature": sig, "minimised_from_steps": n0}  # fmt: skip
@@ -275,7 +318,8 @@ def write_replay(seed, m):
     path = os.path.join(REPLAYS, "C14-%d-%s-%d.json" % (seed, m["stratum"], m["index"]))
     doc = {
         "property": PROPERTY, "verif_seed": seed, "stratum": m["stratum"], "run_index": m["index"],
-        "engine": ENGINE, "source": m["schedule"]["source"], "args": m["schedule"]["args"],
+        "engine": ENGINE, "ref": m["schedule"].get("ref", "inproc"),
+        "source": m["schedule"]["source"], "args": m["schedule"]["args"],
         "steps": m["schedule"]["steps"], "violation": m["violation"], "signature": m["signature"],
         "minimised_from_steps": m["minimised_from_steps"],
     }  # fmt: skip
@@ -334,18 +378,20 @@ def handle_violations(seed, batch, pool):
 
 def replay_main(path):
     quiet()
-    from .engine import attribute, run_schedule, signature
+    preimport()
+    from .engine import attribute, execute, signature, violation_from_json
 
     with open(path) as f:
         doc = json.load(f)
-    schedule = {"source": doc["source"], "args": doc["args"], "steps": doc["steps"]}
-    sim, v = run_schedule(schedule)
-    if v is None:
-        print("NOT-REPRODUCED property=%s replay=%s (history ran clean: %d steps, %d checked queries)"
-              % (PROPERTY, path, sim.n_steps, sim.stats["checked"]))  # fmt: skip
+    schedule = {"source": doc["source"], "args": doc["args"], "steps": doc["steps"], "ref": doc.get("ref", "inproc")}
+    res = execute(schedule)
+    if res["violation"] is None:
+        print("NOT-REPRODUCED property=%s replay=%s (history ran clean: %s steps, %s checked queries)"
+              % (PROPERTY, path, res.get("steps"), res.get("checked")))  # fmt: skip
         return 0
     want = doc.get("violation") or {}
-    got = v.to_json()
+    got = res["violation"]
+    v = violation_from_json(got)
     exact = (
         got["class"] == want.get("class")
         and got["step"] == want.get("step")
@@ -448,15 +494,17 @@ def regression_items():
     for path in sorted(glob.glob(os.path.join(FINDINGS, "*.json"))):
         with open(path) as f:
             doc = json.load(f)
-        items.append((path, {"source": doc["source"], "args": doc["args"], "steps": doc["steps"]}))
+        items.append((path, {"source": doc["source"], "args": doc["args"], "steps": doc["steps"],
+                             "ref": doc.get("ref", "inproc")}))
     return items
 
 
 def check_main(tier, seed, args):
     quiet()
+    preimport()
     t0 = time.time()
     from . import gen, ops
-    from .engine import run_schedule
+    from .engine import execute
 
     workers = n_workers(args.workers)
     batch = Batch()
@@ -464,15 +512,15 @@ def check_main(tier, seed, args):
     # 1. regression histories of repaired defects
     regress_run = 0
     for path, schedule in regression_items():
-        sim, v = run_schedule(schedule)
+        res = execute(schedule)
         regress_run += 1
         batch.runs += 1
-        batch.steps += sim.n_steps
-        batch.stats.update(sim.stats)
+        batch.steps += res.get("steps", 0)
+        batch.stats["checked"] += res.get("checked", 0)
         batch.per_stratum["regression"] += 1
-        if v is not None:
+        if res["violation"] is not None:
             batch.violations.append({"stratum": "regression-" + os.path.basename(path)[:-5], "index": 0,
-                                     "schedule": schedule, "violation": v.to_json()})  # fmt: skip
+                                     "schedule": schedule, "violation": res["violation"]})  # fmt: skip
     sweep_info = None
     det_info = None
     try:
@@ -572,6 +620,7 @@ def write_evidence(tier, seed, batch, wall, workers, n_viol, klines, det_info, s
     faults = {
         "fork_deepcopy": s["fork:deepcopy"],
         "fork_pickle": s["fork:pickle"],
+        "second_load_of_same_source": s["fork:reload"],
         "forks_taken_with_memo_present": s["fork_with_memo"],
         "write_error_before_any_byte": sum(v for k, v in s.items() if k.startswith("wfail:before")),
         "write_error_after_prefix_stored": sum(v for k, v in s.items() if k.startswith("wfail:after")),
@@ -613,6 +662,8 @@ def write_evidence(tier, seed, batch, wall, workers, n_viol, klines, det_info, s
             "runs_by_status": dict(batch.status),
             "runs_with_injected_fault_or_raising_op": batch.faulted_runs,
             "runs_fault_free": batch.runs - batch.faulted_runs,
+            "runs_with_isolated_reference": batch.isolated_ref_runs,
+            "process_isolation": "every history runs in a child forked from a worker that never executes library code; in runs_with_isolated_reference every reference query is answered by its own pristine grandchild process",
             "history_length_histogram_excluding_audit": {str(k): v for k, v in sorted(batch.lengths.items())},
             "runs_by_source_class": dict(sorted(batch.sources.items())),
             "faults_fired": faults,
